@@ -801,10 +801,10 @@ impl Transformer {
                     env!("CARGO_PKG_VERSION")
                 )),
                 OutputEvent::Text(indent),
-                OutputEvent::Comment(
-                    // '--' may not appear within an XML comment
-                    format!(" Config: {:?} ", self.context.config).replace("--", "- -"),
-                ),
+                OutputEvent::Comment(crate::element::comment_safe(&format!(
+                    " Config: {:?} ",
+                    self.context.config
+                ))),
             ])
             .write_to(writer)?;
         }
